@@ -343,6 +343,9 @@ def canon(w):
 EDIT_OPS = ("replace_input", "resize_inputs", "resize_outputs", "rename", "rauw", "remove_cfg_by_name", "remove_cfg_by_obj", "clone", "clone_deep", "round_trip")
 
 
+RT_AFTER = ("rename", "rauw", "replace_input", "resize_inputs", "resize_outputs", "clone", "clone_deep")
+
+
 def _expand(task):
     history, only_edits = task
     w, _ = build(history)
@@ -367,6 +370,16 @@ def _expand(task):
             if d or tuple(id(c) for c in w2.model.device_configurations) != cfg_before:
                 v.append(("rejected_request_had_an_effect", (op[0], [x[:2] for x in d[:3]])))
         v += invariant(w2)
+        if not v and op[0] in RT_AFTER and any(n.device_configurations for n in w2.all_nodes()):
+            # an edit of an annotated model is followed by an implicit serialise/deserialise: the invariant must
+            # hold for the model read back as well (references resolved by name in the right scope)
+            try:
+                w3 = W.__new__(W)
+                w3.model = ir.from_proto(ir.to_proto(w2.model))
+                w3.foreign, w3.spare = w2.foreign, w2.spare
+                v += [("after_round_trip:" + c, d) for c, d in invariant(w3)]
+            except Exception as e:  # noqa: BLE001
+                v.append(("round_trip_of_annotated_model_raises", f"{type(e).__name__}: {e}"[:140]))
         out.append((op, res, canon(w2), v))
     return out
 
